@@ -247,12 +247,12 @@ class AbstractFieldFormat(object):
         :raises cutplace.errors.FieldValueError: if ``value`` is invalid
         """
         self.validate_characters(value)
-        self.validate_empty(value)
-        self.validate_length(value)
         if self.data_format.format == data.FORMAT_FIXED:
             possibly_stripped_value = value.strip()
         else:
             possibly_stripped_value = value
+        self.validate_empty(possibly_stripped_value)
+        self.validate_length(value)
         if possibly_stripped_value:
             result = self.validated_value(possibly_stripped_value)
         else:
